@@ -23,7 +23,7 @@ from cassandra.connection import DefaultEndPoint, DefaultEndPointFactory  # noqa
 from cassandra.policies import SimpleConvictionPolicy, IdentityTranslator  # noqa: E402
 
 META = dict(
-    level='bounded_model_checking',
+    level='model_checking',
     level_text='every second-refresh row set within the bounds is explored (solver-forked scenario variables: per peer present / which field is missing / duplicate / moved datacenter or rack / changed tokens, plus a new peer and a vanished peer); the resulting metadata, announcements, policy notifications and token-map rebuild are compared per path with an independent statement of the refresh rules',
     level_note='scenario space bounded (3 known peers + 1 new); the rows are concrete per path (membership logic is set/dict based); the control connection, listeners and policies are recorders; Metadata.rebuild_token_map is recorded, not executed',
     technique='symbolic execution (sx, solver-forked scenario variables) of the real cassandra.cluster.ControlConnection._refresh_node_list_and_token_map / _is_valid_peer / _update_location_info, Cluster.add_host / remove_host and cassandra.metadata.Metadata host table',
